@@ -25,6 +25,14 @@ def unit_tags(unit_dir):
     return tags, default
 
 
+def unit_flags(unit_dir):
+    for ln in open(os.path.join(unit_dir, "unit.rs")):
+        s = ln.strip()
+        if s.startswith("//@ verus-flags "):
+            return s.split()[2:]
+    return []
+
+
 def template_fn_list(text, linemap):
     out = []
     for f in verus.fn_intervals(text):
@@ -104,6 +112,15 @@ def canary_levels(text, linemap, names_extracted):
             for c in cands:
                 if c != q:
                     graph[q].add(c)
+    # calls that are not visible by name: conversions behind `.into()` / `?`, operators
+    implicit = [(r"\.\s*into\s*\(|\?", "from"), (r"\.\s*try_into\s*\(", "try_from"), (r"\|=", "bitor_assign"),
+                (r"[^|]\|[^|=]", "bitor"), (r"==|!=", "eq"), (r"\.\s*into_iter\s*\(|\bfor\b", "next")]
+    for q, body in nodes.items():
+        for rx, nm in implicit:
+            if nm in short and re.search(rx, body):
+                for c in short[nm]:
+                    if c != q:
+                        graph[q].add(c)
     # Tarjan SCC
     index, low, onst, st, sccs = {}, {}, set(), [], []
     counter = [0]
@@ -269,7 +286,10 @@ def run_unit(name, tier="quick", use_cache=True, canary=True, repo=None):
             "unit-authored %s fn (lemma / verified helper)" % f["mode"])
     # ---------------------------------------------------------------- verus run
     rl = 40 if tier == "thorough" else None
-    vr = verus.run(gen, rlimit=rl, use_cache=use_cache and tier != "thorough")
+    xflags = unit_flags(unit_dir)
+    for fl in xflags:
+        res["trusted_base"].append("verus flag %s (DESIGN.md section 7)" % fl)
+    vr = verus.run(gen, rlimit=rl, use_cache=use_cache and tier != "thorough", extra=xflags)
     res["verus"] = {"cmd": vr["cmd"], "wall_s": vr["wall_s"], "cached": vr["cached"], "rc": vr["rc"]}
     if vr["timeout"] or vr["results"] is None:
         res["status"] = "undecided"
@@ -424,7 +444,7 @@ def run_unit(name, tier="quick", use_cache=True, canary=True, repo=None):
             return res
         from concurrent.futures import ThreadPoolExecutor
         with ThreadPoolExecutor(max_workers=min(8, max(1, len(jobs)))) as ex:
-            outs = list(ex.map(lambda j: verus.run(j[0], use_cache=use_cache, multiple_errors=200), jobs))
+            outs = list(ex.map(lambda j: verus.run(j[0], use_cache=use_cache, multiple_errors=200, extra=xflags), jobs))
         hit = set()
         cwall = 0.0
         for (cgen, ctext, clinemap, lv), cr in zip(jobs, outs):
